@@ -329,6 +329,9 @@ pub struct Planted {
     /// turn the first nonnegative row into `0'x <= -1e21`: a strongly infeasible problem (certificate e_i)
     /// whose offending row lies beyond "minus infinity" and must never be treated as vacuous
     pub minus_inf_row: bool,
+    /// zero the tail rows (A and b) of every second-order cone: the constraint reads t >= ||0||, an LP row written
+    /// as a cone; slack and direction of that block are always collinear (steps point exactly at the apex)
+    pub zero_tail_soc: bool,
     ndev: usize,
 }
 
@@ -359,8 +362,14 @@ impl Planted {
             inf_rows: false,
             loose_rows: false,
             minus_inf_row: false,
+            zero_tail_soc: false,
             ndev,
         }
+    }
+    pub fn with_zero_tail_soc(mut self) -> Self {
+        self.zero_tail_soc = true;
+        self.label = format!("{}-zerotailsoc", self.label);
+        self
     }
     pub fn with_minus_inf_row(mut self) -> Self {
         self.minus_inf_row = true;
@@ -427,6 +436,20 @@ impl Planted {
             for c in &p.cones.clone() {
                 if matches!(c, ConeSpec::NN(k) if *k > 0) || matches!(c, ConeSpec::SOC(1) | ConeSpec::PSD(1)) {
                     p.b[off] = if self.inf_rows { 1e30 } else { 1e18 };
+                }
+                off += c.numel();
+            }
+        }
+        if self.zero_tail_soc {
+            let mut off = 0;
+            for c in &p.cones.clone() {
+                if let ConeSpec::SOC(k) = c {
+                    for i in off + 1..off + k {
+                        for j in 0..p.n {
+                            p.a.set(i, j, 0.0);
+                        }
+                        p.b[i] = 0.0;
+                    }
                 }
                 off += c.numel();
             }
